@@ -137,7 +137,7 @@ Fixpoint insert_sorted (x : val) (l : list val) : list val :=
 Definition sort_vals (l : list val) : list val := fold_right insert_sorted [] l.
 
 (* combineN's ring buffer (iterator.CombineN): vals[pos] = item; pos = (pos+1) mod n; once n values are
-   present the callback gets the buffer AS IT IS (ring order) *)
+   present the callback gets a copy of the buffer *)
 Fixpoint ring_run (n : nat) (xs : list val) (buf : list val) (pos cnt : nat) : list (list val) :=
   match xs with
   | [] => []
@@ -145,7 +145,9 @@ Fixpoint ring_run (n : nat) (xs : list val) (buf : list val) (pos cnt : nat) : l
       let buf' := set_nth buf pos x in
       let pos' := if S pos =? n then 0 else S pos in
       let cnt' := if cnt <? n then S cnt else cnt in
-      if cnt' =? n then buf' :: ring_run n r buf' pos' cnt' else ring_run n r buf' pos' cnt'
+      (* the oldest item is at pos': the callback gets a copy in list order (after the C07 repair) *)
+      if cnt' =? n then (skipn pos' buf' ++ firstn pos' buf') :: ring_run n r buf' pos' cnt'
+      else ring_run n r buf' pos' cnt'
   end.
 Definition windows_of (n : nat) (xs : list val) : list (list val) :=
   if n =? 0 then [] else ring_run n xs (repeat 0%Z n) 0 0.
